@@ -37,6 +37,12 @@ impl SwiftField for Field11R {
     where
         Self: Sized,
     {
+        if !input.is_ascii() {
+            return Err(ParseError::InvalidFormat {
+                message: "Field 11R must contain only digits".to_string(),
+            });
+        }
+
         let mut remaining = input;
 
         // Parse message type (3!n)
@@ -182,6 +188,12 @@ impl SwiftField for Field11S {
     where
         Self: Sized,
     {
+        if !input.is_ascii() {
+            return Err(ParseError::InvalidFormat {
+                message: "Field 11S must contain only digits".to_string(),
+            });
+        }
+
         let mut remaining = input;
 
         // Parse message type (3!n)
